@@ -77,6 +77,7 @@ theorem encFixed_length (tot : Nat) (L : List Field) (vs : List Val) (bs : Bytes
           simp only [encFixed] at h
           split at h
           · rename_i hb
+            have hb1 := hb.1
             obtain ⟨x, hx, rfl⟩ := Option.map_eq_some_iff.mp h
             simp only [List.length_append, zeros_length, fixedSize, ih vs x hx]
             omega
@@ -143,7 +144,10 @@ theorem decFixed_encFixed (tot : Nat) (L : List Field) (vs : List Val)
         | raw b =>
           simp only [fitsFixed, Bool.and_eq_true, decide_eq_true_eq] at hf
           obtain ⟨bs, he, hd⟩ := ih vs hf.2 (by simpa [lenFits] using hl)
-          refine ⟨b ++ zeros (n - b.length) ++ bs, by simp [encFixed, hf.1.1, he], fun tl => ?_⟩
+          refine ⟨b ++ zeros (n - b.length) ++ bs, by
+            have h0 := hf.1.2
+            simp only [encFixed]
+            rw [if_pos ⟨hf.1.1, h0⟩, he]; simp, fun tl => ?_⟩
           have hlen : (b ++ zeros (n - b.length)).length = n := by
             simp only [List.length_append, zeros_length]; omega
           have htake : ((b ++ zeros (n - b.length)) ++ (bs ++ tl)).take n = b ++ zeros (n - b.length) := by
